@@ -795,7 +795,7 @@ class NoTraceOracle(Observer):
             self.snap = self._snapshot(w)
             # half-forgotten view links: the tensor's graph was cleared, or its base was (and no
             # longer lists it); any use - successful or not - may drop such a link (DESIGN C13)
-            self.lingering = {h for h, t in w.T.items() if t.base is not None and (t.creator is None or w.info[h].stale or w.info[h].fam.born == -1)}
+            self.lingering = {h for h, t in w.T.items() if (t.base is not None and t.creator is None) or w.info[h].stale or w.info[h].fam.born == -1}
         else:
             self.snap = None
 
@@ -921,6 +921,8 @@ class NoMutationOracle(Observer):
         for ha, c in arrs.items():
             if ha in w.A and _ck(w.A[ha]) != c:
                 role = "seed" if ha == seed_h else ("operand" if ha in operands else ("held_" + w.a_kind.get(ha, "array")))
+                if role != "seed" and any(r() is w.A[ha] for r in getattr(self, "seeds", [])):
+                    role = "former_seed"  # it was handed to an earlier backward(grad) and is still some tensor's .grad
                 if w.violation(
                     "C12",
                     "C12.caller_array_modified",
@@ -1257,7 +1259,7 @@ class GradLifetimeOracle(Observer):
             ok = False
             if bg is not None and np.asarray(bg).size > int(ids.max()) if ids.size else True:
                 try:
-                    ok = bool(np.array_equal(np.asarray(g), np.asarray(bg).reshape(-1)[ids]))
+                    ok = bool(np.array_equal(np.asarray(g), np.asarray(bg).reshape(-1)[ids], equal_nan=True))
                 except Exception:
                     ok = True  # shapes no longer comparable (base was reshaped): nothing asserted
             if not ok and bg is not None:
